@@ -46,7 +46,7 @@ fn one(rep: &mut Report, b: &[u8]) {
 
 pub fn run(tier: Tier, rep: &mut Report) -> (String, String) {
     let alpha: &[u8] = &[0, b'a', 0xC3, 0xB1, 0xFF];
-    let n = tier.pick(6, 8, 2);
+    let n = tier.pick(7, 9, 2);
     let all = bytes_over(alpha, n);
     rep.merge(par_each(&all, n_threads(tier), |b, r| {
         one(r, b);
